@@ -16,6 +16,24 @@ CHECKS = {
  "C04": ("exploration", "bounded-exhaustive pair/triple enumeration against the exact order",
          "All shape pairs at all gaps and signs, arm-targeted near-equal pairs for every gap 0..35 (equal values in different cohorts, values differing in one dropped digit), special table, predicates on every cohort member and zero exponent, explicit triples; every answer of Cmp/CmpAbs/Equal/Compare/Min/Max/IsZero/Sign compared with the exact order.",
          "Exhaustive over shapes and gaps, not over all digit values."),
+ "C05": ("model_checking", "explicit-state conformance of the parser with a reference automaton: all strings up to length N over a 15-symbol alphabet, plus bounded-exhaustive structured literals against an exact literal evaluator",
+         "Every string up to the length bound through Parse/UnmarshalText/MustParse judged against the reference grammar and exact evaluator; structured literals of every length 1..45 and around 32768/65536 digits, every dot position, leading-zero runs, exponent fields across every threshold, lead-digit prefixes at accumulator limits, 6 DefaultRoundingMode values; Scan on valid numerals.",
+         "Strings the documentation does not pin (signed NaN, '_' in exponent digits) are not judged; UnmarshalText may leave the receiver alone on a range error."),
+ "C06": ("exploration", "bounded-exhaustive enumeration (coefficient cohorts x all 12288 exponents) against the reference shortest layout, plus parse round trip",
+         "Every shape with trailing-zero cohorts at every exponent and sign through String/MarshalText/%v/Format/Append(-1), digit-pair sweep of the extractor, zeros at every exponent, specials; text must equal the reference layout and parse back to the same value and sign.",
+         "Reference layout = strconv shortest layout on exact digits (bound to the toolchain in C07)."),
+ "C07": ("model_checking", "conformance with a reference formatter model over the product value x verb x precision x width x flag subsets; model validated against the installed fmt/strconv on float64-exact values every run",
+         "Reference formatter (exact digits, half-even rounding, strconv layout, fmt flags) compared with fmt.Sprintf, Decimal.Append, Format and Append on every value/spec combination and flag sequences; the model itself must reproduce the toolchain's output for every float64-exact value and spec first.",
+         "Configuration = installed Go toolchain; values are a shape alphabet."),
+ "C13": ("model_checking", "conformance with the RFC 8259 number grammar: all byte strings up to length N over a JSON-ish alphabet, structured numbers, and MarshalJSON over cohorts x exponents with exact value check",
+         "MarshalJSON output validated by three recognisers, exact value/sign, no superfluous digits, round trips directly and through encoding/json containers; UnmarshalJSON judged on every string up to the bound and on structured numbers against Parse; null and non-number documents.",
+         "Plain numerals that are not JSON numbers (+1, .5, 01) are not judged."),
+ "C15": ("exploration", "exhaustive operand-class table (class alphabet squared x every operation/mode) against float64 shadows; predicates over all 2^17 top-bit patterns",
+         "Every pair of operand classes for every binary operation and mode, every class for every unary operation; class and sign from Go's float64 operation, bit-exact NaN propagation, payload text of invalid operations, predicate consistency on every top-bit pattern.",
+         "Finite representatives are moderate so float64 and decimal agree on result classes; Min/Max decided by C04."),
+ "C19": ("model_checking", "cohort-closure search: every encoding of each base value x every observer; executions that must be indistinguishable are compared with each other; Canonical against the direct definition over shapes x all exponents",
+         "All cohort members (generated by x10//10 transitions) of each base value through ~150 unary observers and all binary operations (member x member product on a reduced base, one side at a time otherwise); Canonical bit-exact against the normal-form definition over every exponent and all special prefixes.",
+         "Differential oracle: no numeric reference involved; sign of Canonical(NaN) not pinned."),
  "C08": ("exploration", "bounded-exhaustive enumeration (shape x exponent x every cutting dp x mode) against exact quantisation",
          "Every shape at every exponent position with every dp that cuts through or borders its digits, extreme dp values, six modes, both signs; Round/Ceil/Floor and the package functions; idempotence re-applied on every result.",
          "When the rounded multiple is not a member the oracle expects Inf; model bound to the repository's Round/Ceil/Floor vectors."),
